@@ -299,4 +299,282 @@ theorem abort_restores (s : State) (ops : List Op) (h : Inv s) (hc : s.closed = 
   exact obs_eq_of_core s _ h (abortCurrent_inv _ (run_inv s ops h)) hc ht
     (abortCurrent_txn _ hc') hcore
 
+/-! ### calls with a transaction other than the current one -/
+
+/-- the calls that carry a transaction and are rejected when it is not the current one -/
+def rejectedOp (t' : TxnId) : Op → Prop
+  | .store t _ _ _ _ => t = t'
+  | .storeBlob t _ _ _ _ => t = t'
+  | .delete t _ _ => t = t'
+  | .vote t => t = t'
+  | .finish t => t = t'
+  | _ => False
+
+theorem wrong_txn_rejected (s : State) (t' : TxnId) (op : Op) (hc : s.closed = false)
+    (ht : s.txn ≠ some t') (hop : rejectedOp t' op) :
+    step s op = ({ s with armed := none }, [], .errTxn) := by
+  cases op <;> simp only [rejectedOp] at hop <;> subst hop <;>
+    simp [step, hc, doStore, doDelete, doVote, doFinish, ht]
+
+theorem wrong_txn_abort (s : State) (t' : TxnId) (hc : s.closed = false) (ht : s.txn ≠ some t') :
+    step s (.abort t') = ({ s with armed := none }, [], .ok) := by
+  simp [step, hc, doAbort, ht]
+
+theorem obs_armed (s : State) (a) : obs { s with armed := a } = obs s := rfl
+
+/-! ### the raw data-file trace -/
+
+def dataMuts (evs : List Ev) : List Ev := evs.filter isDataMut
+
+theorem stage_no_data (s : State) (oid del dlen tag blob) :
+    dataMuts (stage s oid del dlen tag blob).2.1 = [] := by
+  unfold stage; simp only []
+  repeat' split
+  all_goals simp [dataMuts, isDataMut]
+
+/-- while a transaction is in progress and has not voted, `_nextpos` is 0 -/
+def Unvoted (s : State) : Prop := s.txn ≠ none → s.nextpos = 0
+
+theorem stage_nextpos (s : State) (oid del dlen tag blob) :
+    (stage s oid del dlen tag blob).1.nextpos = s.nextpos ∧
+    (stage s oid del dlen tag blob).1.txn = s.txn := by
+  unfold stage; simp only []
+  repeat' split
+  all_goals exact ⟨rfl, rfl⟩
+
+theorem step_unvoted (s : State) (op : Op) (h : Unvoted s) (hop : ∀ t, op ≠ .vote t) :
+    Unvoted (step s op).1 ∧ dataMuts (step s op).2.1 = [] := by
+  unfold step
+  split
+  · exact ⟨h, rfl⟩
+  · cases op with
+    | fault k => exact ⟨h, rfl⟩
+    | vote t => exact absurd rfl (hop t)
+    | «begin» t tid st ul dl el =>
+      simp only [doBegin, Unvoted]
+      repeat' split
+      all_goals first
+        | exact ⟨h, rfl⟩
+        | exact ⟨fun _ => rfl, rfl⟩
+    | store t oid ser dlen tag =>
+      simp only [doStore, Unvoted]
+      repeat' split
+      all_goals first
+        | exact ⟨h, rfl⟩
+        | (refine ⟨?_, stage_no_data _ _ _ _ _ _⟩
+           simp only [(stage_nextpos _ _ _ _ _ _).1, (stage_nextpos _ _ _ _ _ _).2]; exact h)
+    | storeBlob t oid ser dlen tag =>
+      simp only [doStore, Unvoted]
+      repeat' split
+      all_goals first
+        | exact ⟨h, rfl⟩
+        | (refine ⟨?_, stage_no_data _ _ _ _ _ _⟩
+           simp only [(stage_nextpos _ _ _ _ _ _).1, (stage_nextpos _ _ _ _ _ _).2]; exact h)
+    | delete t oid ser =>
+      simp only [doDelete, Unvoted]
+      repeat' split
+      all_goals first
+        | exact ⟨h, rfl⟩
+        | (refine ⟨?_, stage_no_data _ _ _ _ _ _⟩
+           simp only [(stage_nextpos _ _ _ _ _ _).1, (stage_nextpos _ _ _ _ _ _).2]; exact h)
+    | finish t =>
+      simp only [doFinish]
+      split
+      · exact ⟨h, rfl⟩
+      · rename_i ht
+        have ht' : s.txn = some t := by simpa using ht
+        have hn : s.nextpos = 0 := h (by simp [ht'])
+        have : ¬ voted s := by unfold voted; simp [hn]
+        simp [this]; exact ⟨h, rfl⟩
+    | abort t =>
+      simp only [doAbort]
+      split
+      · exact ⟨h, rfl⟩
+      · rename_i ht
+        have ht' : s.txn = some t := by simpa using ht
+        have hn : s.nextpos = 0 := h (by simp [ht'])
+        refine ⟨fun _ => rfl, ?_⟩
+        simp only [hn, dataMuts, ne_eq, not_true_eq_false, ite_false, List.nil_append,
+          List.filter_eq_nil_iff, List.mem_map]
+        rintro a ⟨⟨o, d⟩, _, rfl⟩
+        simp [isDataMut]
+
+theorem dataMuts_append (a b : List Ev) : dataMuts (a ++ b) = dataMuts a ++ dataMuts b := by
+  simp [dataMuts]
+
+theorem nothing_before_vote (s : State) (ops : List Op) (h : Unvoted s)
+    (hop : ∀ o ∈ ops, ∀ t, o ≠ .vote t) : dataMuts (trace s ops) = [] := by
+  induction ops generalizing s with
+  | nil => rfl
+  | cons o os ih =>
+    have h1 := step_unvoted s o h (hop o (by simp))
+    simp only [trace, dataMuts_append, h1.2, List.nil_append]
+    exact ih _ h1.1 (fun o' ho' => hop o' (by simp [ho']))
+
+/-- a data-file mutation does not touch bytes below `p` -/
+def evBeyond (p : Nat) : Ev → Bool
+  | .write .data off _ => decide (p ≤ off)
+  | .trunc .data n => decide (p ≤ n)
+  | _ => true
+
+theorem writesFrom_beyond (p off : Nat) (l : List Nat) (h : p ≤ off) :
+    (writesFrom off l).all (evBeyond p) = true := by
+  induction l generalizing off with
+  | nil => rfl
+  | cons n t ih =>
+    simp only [writesFrom, List.all_cons, Bool.and_eq_true]
+    exact ⟨by simp [evBeyond, h], ih (off + n) (by omega)⟩
+
+theorem stage_beyond (s : State) (oid del dlen tag blob) :
+    (stage s oid del dlen tag blob).2.1.all (evBeyond s.pos) = true := by
+  unfold stage; simp only []
+  repeat' split
+  all_goals simp [evBeyond]
+
+theorem doVote_beyond (s : State) (t) : (doVote s t).2.1.all (evBeyond s.pos) = true := by
+  have hw := fun l => writesFrom_beyond s.pos s.pos l (Nat.le_refl _)
+  unfold doVote
+  split
+  · rfl
+  · simp only []
+    repeat' split
+    all_goals simp [List.all_append, hw, evBeyond]
+
+theorem step_beyond (s : State) (op : Op) : (step s op).2.1.all (evBeyond s.pos) = true := by
+  unfold step
+  split
+  · rfl
+  · cases op with
+    | fault k => rfl
+    | vote t => exact doVote_beyond s t
+    | «begin» t tid st ul dl el =>
+      simp only [doBegin]
+      repeat' split
+      all_goals rfl
+    | store t oid ser dlen tag =>
+      simp only [doStore]
+      repeat' split
+      all_goals first
+        | rfl
+        | exact stage_beyond _ _ _ _ _ _
+    | storeBlob t oid ser dlen tag =>
+      simp only [doStore]
+      repeat' split
+      all_goals first
+        | rfl
+        | exact stage_beyond _ _ _ _ _ _
+    | delete t oid ser =>
+      simp only [doDelete]
+      repeat' split
+      all_goals first
+        | rfl
+        | exact stage_beyond _ _ _ _ _ _
+    | finish t =>
+      simp only [doFinish]
+      repeat' split
+      all_goals simp [evBeyond]
+    | abort t =>
+      simp only [doAbort]
+      repeat' split
+      all_goals simp [evBeyond]
+
+/-- `_pos` only moves at the commit point -/
+theorem step_pos (s : State) (op : Op) (h : ¬ commits s op) : (step s op).1.pos = s.pos :=
+  congrArg Core.pos (step_core s op h)
+
+/-- no call that stays before the commit point ever writes or truncates below `_pos`: committed
+    bytes are never touched by an unfinished transaction -/
+theorem trace_beyond (s : State) (ops : List Op) (h : NoCommit s ops) :
+    (trace s ops).all (evBeyond s.pos) = true := by
+  induction ops generalizing s with
+  | nil => rfl
+  | cons o os ih =>
+    simp only [trace, List.all_append, Bool.and_eq_true]
+    refine ⟨step_beyond s o, ?_⟩
+    have := ih _ h.2
+    rwa [step_pos s o h.1] at this
+
+/-! ### a failing vote, a failing finish -/
+
+theorem getLast_two (l : List Ev) (a b : Ev) : (l ++ [a, b]).getLast? = some b := by
+  simp [List.getLast?_append]
+
+theorem step_vote_open (s : State) (t : TxnId) (hc : s.closed = false) :
+    step s (.vote t) = ({ (doVote s t).1 with armed := none }, (doVote s t).2) := by
+  simp [step, hc]
+
+/-- tpc_vote raising an I/O error: either the temp-file flush failed before anything touched the
+    data file, or the `except:` path ran and its last raw operation truncated back to `_pos`.
+    Nothing else changes (in particular `_nextpos`, the staging area and the lock). -/
+theorem vote_failure (s : State) (t : TxnId) (hc : s.closed = false)
+    (h : (step s (.vote t)).2.2 = .errIO) :
+    ((step s (.vote t)).1 = { s with armed := none } ∧ dataMuts (step s (.vote t)).2.1 = []) ∨
+    ((step s (.vote t)).1 = { s with armed := none, fileLen := s.pos } ∧
+      (step s (.vote t)).2.1.getLast? = some (.trunc .data s.pos)) := by
+  revert h
+  rw [step_vote_open s t hc]
+  unfold doVote
+  simp only []
+  repeat' split
+  all_goals
+    intro h
+    first
+      | (simp at h; done)
+      | exact Or.inl ⟨rfl, rfl⟩
+      | exact Or.inr ⟨rfl, getLast_two _ _ _⟩
+
+/-- a successful vote: only `_nextpos` and the physical file length change -/
+theorem vote_ok (s : State) (t : TxnId) (h : (step s (.vote t)).2.2 = .ok) :
+    (step s (.vote t)).1 =
+      { s with armed := none, nextpos := s.pos + (s.thl + recsSize s.tfile) + 8,
+               fileLen := max s.fileLen (s.pos + (s.thl + recsSize s.tfile) + 8) } := by
+  revert h
+  simp only [step, doVote]
+  repeat' split
+  all_goals
+    intro h
+    first
+      | (simp at h; done)
+      | rfl
+
+/-- a failure at the status flip (the commit point): the storage closes itself, and the `finally`
+    of tpc_finish forgets the transaction and releases the commit lock; afterwards the object
+    answers nothing any more.  What memory believes to be committed is unchanged. -/
+theorem finish_failure_closes (s : State) (t : TxnId) (hcm : commits s (.finish t))
+    (ha : s.armed = some 1) :
+    (step s (.finish t)).2.2 = .errIO ∧
+    (step s (.finish t)).1 = { s with closed := true, txn := none, commitLock := none, armed := none } ∧
+    ∀ op, step (step s (.finish t)).1 op = ((step s (.finish t)).1, [], .closed) := by
+  obtain ⟨hc, ht, hv⟩ := hcm
+  have h1 : step s (.finish t) =
+      ({ s with closed := true, txn := none, commitLock := none, armed := none },
+       [.fault .data, .write .data (s.pos + 16) 1], .errIO) := by
+    simp [step, hc, doFinish, ht, hv, ha]
+  rw [h1]
+  refine ⟨rfl, rfl, ?_⟩
+  intro op
+  simp [step]
+
+/-- the commit point passed without a fault -/
+theorem finish_ok (s : State) (t : TxnId) (hcm : commits s (.finish t)) (ha : s.armed ≠ some 1) :
+    step s (.finish t) =
+      ({ s with txns := { tid := s.tid, status := s.tstatus, ul := s.ude.1, dl := s.ude.2.1,
+                          el := s.ude.2.2, recs := s.tfile } :: s.txns,
+                pos := s.nextpos, index := update s.index s.tindex, ltid := s.tid,
+                blobs := s.dirty ++ s.blobs, dirty := [], tindex := [], tfile := [],
+                txn := none, commitLock := none, armed := none },
+       [.write .data (s.pos + 16) 1, .fsync .data], .ok) := by
+  obtain ⟨hc, ht, hv⟩ := hcm
+  simp [step, hc, doFinish, ht, hv, ha]
+
+/-! ### the lock after the mandated abort -/
+
+theorem abortCurrent_lock (s : State) (h : Inv s) (hc : s.closed = false) :
+    (abortCurrent s).commitLock = none ∧ canBegin (abortCurrent s) = true := by
+  have hi := abortCurrent_inv s h
+  have hcl : (abortCurrent s).closed = false := by
+    have := congrArg Core.closed (abortCurrent_core s); simp [core] at this; rw [this]; exact hc
+  have hl := ((hi hcl).1 (abortCurrent_txn s hc)).1
+  exact ⟨hl, by simp [canBegin, hcl, hl]⟩
+
 end Proofs.TwoPC
